@@ -518,6 +518,21 @@ Section DlCacheProofs.
     - intros F. apply H. eapply Permutation_in; [apply Permutation_map; apply Permutation_sym; exact HP|assumption].
   Qed.
 
+  (* distinct names: the table is exactly the association list of the pairs added *)
+  Theorem adds_distinct_refine : forall size host l,
+      1 <= size -> NoDup (map fst (amap_of_host name V host ++ l)) ->
+      exists c0 c,
+        dlcache_new size host = Ok c0 /\ run_adds c0 l = Ok c /\
+        forall n, dlcache_lookup c n = afind (amap_of_host name V host ++ l) n.
+  Proof.
+    intros size host l Hsz Hnd.
+    destruct (new_refines size host Hsz) as [c0 [Hn [Hinv0 [_ Hp0]]]].
+    destruct (run_adds_ok l c0 Hinv0) as [c [Hr [Hinv Hp]]].
+    exists c0, c. split; [assumption|]. split; [assumption|].
+    intros n. apply lookup_refines_wf; [apply tab_inv_wf; assumption|assumption|].
+    eapply perm_trans; [exact Hp|]. apply Permutation_app_tail. assumption.
+  Qed.
+
   (* size 0: `hash % 0` *)
   Theorem dlcache_new_size0_refuted : forall p, dlcache_new 0 (Some p) = DivZero.
   Proof. intros [n h]. reflexivity. Qed.
